@@ -34,6 +34,19 @@ CHECKS = {
    technique="controlled cooperative scheduler + DFS with iterative preemption bounding (CHESS style) x pool-answer enumeration on the real lazyproto code; separate free-running -race pass as sampling complement",
    text="2 threads x 2 iterations and 3 threads x 1 iteration (thorough: + 3x2, higher bounds) sharing one Decoder, each iteration Decode/read/NestedResults/read nested/Close on its own unique input; scheduling points at every Pool.Get/Put, every API boundary and between obtaining and re-verifying values; all interleavings with <= 2 (3) preemptions x <= 1 (2) non-default pool answers. Oracle: per-thread isolation against the reference parse, no panic, no deadlock; replay determinism asserted before exploring.",
    note="Cooperative scheduling cannot see unsynchronised accesses inside one API call: the -race pass (G in {2,8,32,64}, GOMAXPROCS {1,2,16}) is sampling and only a complement, reported under coverage.race_pass. Sequential consistency assumed."),
+
+ "C04": dict(level="exploration", design="DESIGN.md §7 C04",
+   technique="exhaustive feature-matrix enumeration (schemas x runtimes x value trees) executed on fast-marshal code regenerated from the current templates; mutual-agreement oracle with canary-framed exact buffers",
+   text="Corpus = complete kind x cardinality x syntax feature matrix (+ extensions, recursion, maps with every key kind, field-number boundaries) for runtimes gogo+gv2 (thorough: + legacy v1 + gv1 and all field pairs). Fast-marshal code is regenerated from /repo's current generator on every run and compiled per cell. Every field alone at every boundary value of its domain, all-first/second/last, extension value trees: Size (fresh copy) == len(Marshal) == bytes written by MarshalTo into an exactly sized canary-framed window; no panic; csproto.Size/Marshal agree.",
+   note="Cells whose code cannot be generated/compiled are quarantined and listed in evidence (they are C16's verdict). Values are built through protoreflect/runtime APIs, never through generated code. Nil-ish hand-built shapes (nil list elements etc.) are not enumerated."),
+ "C05": dict(level="exploration", design="DESIGN.md §7 C05",
+   technique="exhaustive feature-matrix enumeration; differential oracle against the reference runtime decoding from the descriptor alone (dynamicpb), bit-exact tree comparison",
+   text="Same corpus x runtime x value-tree space as C04. generated.Marshal(m) is parsed by protobuf-go's dynamicpb from descriptors built independently from the corpus definition (protodesc), with dynamic extension types; the decoded tree must equal the source tree bit-exactly (floats by bits incl. -0.0/NaN, presence of every field, extensions), and the reference must see no unknown fields.",
+   note="Per case harness guards (reference round trip, struct read-back) turn harness faults into internal errors, not violations. The reference runtime (google.golang.org/protobuf v1.36.4) is trusted."),
+ "C20": dict(level="exploration", design="DESIGN.md §7 C20",
+   technique="exhaustive enumeration of rendered layouts / short strings / short byte strings / value trees x path subsets against a reference grammar and a reference wire walk; protodump's dumpProto driven through an overlay-injected test file and the real binary",
+   text="Hex: all byte strings <= 3 over 5 symbols x every whitespace/comment/newline/case layout at every gap (15 M renderings quick) and every string <= 6 over a 9-character alphabet against a reference grammar. protodump: dumpProto on all byte strings <= 4 (5) over the 16-symbol wire alphabet x 5 path configurations and value trees (depth 2/3) x every subset of expand/strings paths incl. absent/prefix/over-long/wildcard paths; output parsed tolerantly and compared with a refwire-based reference walk; CLI forms -file, redirected and piped stdin, malformed => exit 1 without panic.",
+   note="Undocumented combinations (same path in -strings and -expand; line break inside a byte) accept both behaviours. dumpProto is reached through a test file injected with go test -overlay; the binary is rebuilt from /repo per run."),
 }
 
 NOT_YET = {}
